@@ -405,7 +405,11 @@ func (c *channel) processCommand(ctx context.Context, sender RequestCommandSende
 	defer func() {
 		verifGate(c, "pc.cleanup", reqCmd)
 		c.processingCmdsMu.Lock()
-		delete(c.processingCmds, reqCmd.ID)
+		// Another request may have been registered under the same id in the meantime
+		// (after this one was answered): only our own registration is removed.
+		if c.processingCmds[reqCmd.ID] == respChan {
+			delete(c.processingCmds, reqCmd.ID)
+		}
 		c.processingCmdsMu.Unlock()
 	}()
 
@@ -427,18 +431,18 @@ func (c *channel) trySubmitCommandResult(respCmd *ResponseCommand) bool {
 		return false
 	}
 
-	c.processingCmdsMu.RLock()
+	// The request is looked up and removed in one critical section: with two, a request
+	// registered under the same id in between would be removed instead and never answered.
+	c.processingCmdsMu.Lock()
 	respChan, ok := c.processingCmds[respCmd.ID]
-	c.processingCmdsMu.RUnlock()
+	if ok {
+		delete(c.processingCmds, respCmd.ID)
+	}
+	c.processingCmdsMu.Unlock()
 
 	if !ok {
 		return false
 	}
-	verifGate(c, "rcv.lookedUp", respCmd)
-
-	c.processingCmdsMu.Lock()
-	delete(c.processingCmds, respCmd.ID)
-	c.processingCmdsMu.Unlock()
 	verifGate(c, "rcv.deleted", respCmd)
 
 	respChan <- respCmd
